@@ -302,7 +302,11 @@ def check_dh(ctx):
                "1..255 leading zero bytes; blinding {0, 2^256-1, random, = priv} incl. a sweep on fixed inputs; entropy "
                "failure at each read; sanity check on boundaries and on strings sharing a prefix with p; OpenSSL's own "
                "RFC 3526 prime vs the spec literal; the two exponents handed to BN_mod_exp (observed by a --wrap build) vs the "
-               "model's blinded_exponents; non-trivial = distinct (case, result)",
+               "model's blinded_exponents; two operations in progress at once: in three quarters of the genpub / compute / "
+               "generate cases (chosen by the case text) the entropy source, while the outer operation waits for its "
+               "blinding, performs a complete crypto_dh_generate_pub for another private value and compares it with the "
+               "same call made alone beforehand (`!other-operation-disturbed`), then the outer operation continues and "
+               "must still give the model's result; non-trivial = distinct (case, result)",
                samples=[cases[1][:100], cases[-1][:100]])
 
 
@@ -446,6 +450,23 @@ def gen_os(ctx):
                       [1, 0, 2, 3, 33, 5]))
     ctx.count("os.failures-in-a-row")
     light.append(line([], [4, 4])); ctx.count("os.script-exhausted")
+    # --- the application holds entropy_read cookies of its own while all this happens (token app:a-b,...:
+    #     obtained before request a, used and released after request b; see drv_drbg.c).  The cookies are
+    #     independent objects, so nothing above changes. ---
+    nreq = lambda c: 0 if c.split()[2] == "-" else c.count(",", c.rindex(" ")) + 1
+    for i, c in enumerate(light):
+        k, n = r.randrange(6), nreq(c)
+        if k < 3 or n == 0:
+            continue
+        if k == 3:
+            a = "app:0-%d" % (n + 3)                       # held throughout
+        elif k == 4:
+            x = r.randrange(n); a = "app:%d-%d" % (x, r.randrange(x, n))
+        else:                                               # two cookies, released in creation order / nested
+            x = r.randrange(n); y = r.randrange(x, n)
+            a = "app:%d-%d,%d-%d" % (x, y, y, r.randrange(y, n + 1)) if r.randrange(2) else "app:0-%d,%d-%d" % (n, x, y)
+        light[i] = c + " " + a
+        ctx.count("os.application-cookie-alive")
     # --- reseeds (generate calls 257 and 513): one history with a failing session at every position ---
     heavy = []
     fails1 = [failing(32, p, k) for p in range(32) for k in KINDS]
@@ -455,7 +476,17 @@ def gen_os(ctx):
     sessions = [healthy(48, [r.randrange(1, 48)])] + fails1 + [healthy(32, [r.randrange(1, 32)], "ik")] + fails2 + \
                [healthy(32, range(1, 32))]
     reqs = [1] * 256 + [r.choice([1, 2, 33]) for _ in fails1] + [1] * 256 + [r.choice([1, 40]) for _ in fails2] + [7, 7, 7]
-    heavy.append(line(sessions, reqs))
+    # application cookies alive across the instantiation, across the first reseed and its failing sessions,
+    # one obtained in between and alive across the second reseed, one never released before the end
+    n1 = 256 + len(fails1)
+    heavy.append(line(sessions, reqs) + " app:0-%d,%d-%d,%d-%d,%d-%d,%d-%d" % (
+        r.randrange(3), r.randrange(200, 256), 256 + r.randrange(len(fails1)), n1 - 1, n1 + r.randrange(3),
+        n1 + 100, n1 + 256 + r.randrange(len(fails2)), len(reqs) - 2, len(reqs) + 5))
+    ctx.count("os.application-cookie-alive.across-reseed", 3)
+    # ... and held from before the instantiation until after the reseed before generate call 257
+    heavy.append(line([healthy(48, [r.randrange(1, 48)]), healthy(32, [r.randrange(1, 32)])], [r.choice([1, 2]) for _ in range(258)])
+                 + " app:0-257")
+    ctx.count("os.application-cookie-alive.instantiation-to-reseed")
     ctx.count("os.reseed.read-fails", 32 * len(KINDS)); ctx.count("os.reseed.open-or-close-fails", 5)
     ctx.count("os.reseed2.session-fails", len(fails2))
     if not ctx.quick:
@@ -486,6 +517,8 @@ def gen_os(ctx):
         closes = r.choice(["k", "k", "k", "k", "ik", "iik", "e", "ie", "-", "i", "ke"])
         opn = "x" if r.randrange(12) == 0 else "o"
         sess.append("sess %d %s:%s:%s" % (n, opn, "/".join(reads) if reads else "-", closes))
+        if r.randrange(3) == 0:
+            sess[-1] += r.choice([" app:0-0", " app:0-0,0-0"]); ctx.count("sess.application-cookie-alive")
         ctx.count("sess.open-fails" if opn == "x" else "sess.random-script")
     return heavy, light, sess
 
@@ -510,6 +543,12 @@ def strip_ent(l):
 
 def strip_sys(l):
     return l.split(" sys=")[0]
+
+
+def no_app(c):
+    """the case as the model sees it: the application's own cookies (token app:...) are independent
+    objects (entropy.h), they change nothing"""
+    return re.sub(r" app:\S+$", "", c)
 
 
 def strip_state(l):
@@ -589,10 +628,10 @@ def check_drbg(ctx):
         lambda: vlib.run_sharded(mexe, light, shards=4, timeout=900),
         lambda: vlib.run_sharded(mexe, ["spec " + c for c in light], shards=4, timeout=900),
         lambda: vlib.run_sharded(oexe, os_cases, shards=4, env=env, timeout=900),
-        lambda: vlib.run_sharded(mexe, os_heavy, shards=len(os_heavy) or 1, timeout=1500),
-        lambda: vlib.run_sharded(mexe, ["spec " + c for c in os_heavy], shards=len(os_heavy) or 1, timeout=1500),
-        lambda: vlib.run_sharded(mexe, os_small, shards=2, timeout=900),
-        lambda: vlib.run_sharded(mexe, ["spec " + c for c in os_small], shards=2, timeout=900))
+        lambda: vlib.run_sharded(mexe, [no_app(c) for c in os_heavy], shards=len(os_heavy) or 1, timeout=1500),
+        lambda: vlib.run_sharded(mexe, ["spec " + no_app(c) for c in os_heavy], shards=len(os_heavy) or 1, timeout=1500),
+        lambda: vlib.run_sharded(mexe, [no_app(c) for c in os_small], shards=2, timeout=900),
+        lambda: vlib.run_sharded(mexe, ["spec " + no_app(c) for c in os_small], shards=2, timeout=900))
     vlib.sanitizer_reports(ctx, sub, st)
     sh = dict(zip(spec_heavy, spec_h))
     model = model_h + model_l
@@ -643,6 +682,12 @@ def check_drbg(ctx):
                    "alone on random scripts incl. buflen 0; per session the size of the first read and the numbers of "
                    "read/close answers consumed are compared too, and the wrappers check device path, O_RDONLY, descriptor, "
                    "that each read asks exactly for the unfilled rest, and that no descriptor stays open; "
+                   "the application's own cookies: in about half of the cases the application holds one or two "
+                   "entropy_read cookies of its own (entropy_read_init .. fill .. done; token app:a-b) across the "
+                   "instantiation, across either reseed and its failing sessions, or from the instantiation until after "
+                   "the reseed at call 257: results must be those of the case without them (the model is given the case "
+                   "without the token), every cookie reads and closes only the descriptor its own open returned, and the "
+                   "application's cookie still delivers its own device's bytes when it is used afterwards; "
                    "non-trivial = distinct (case, result)",
                    samples=[os_light[0][:160] if os_light else "", sess[0][:160] if sess else ""])
     # util/entropy.c read loop
